@@ -542,6 +542,21 @@ pub fn gen_legacy(rng: &mut Rng, thorough: bool) -> Vec<String> {
     let keys = ["30", "31", "32", "306b", "316b", "30+6b", "-", "6b", "3030", "ff"];
     // contract1 / contract10 / contract11 / contract12 (prefixes), contract3 / CONTRACT3 and contract8 / CONTRACT8 (case)
     let focus: Vec<String> = [1u64, 10, 11, 12, 3, 4, 8, 9, 0, 6, 5, 2].iter().map(|i| sym(*i)).collect();
+    if rng.chance(1, 3) {
+        // adjacent addresses inside ONE transaction: contract1 (c2_1) writes its EMPTY key — the raw key is exactly the upper
+        // bound of contract0's namespace — and, while that write is still pending in the cache, calls contract0 (c1_0),
+        // which iterates its own storage with an open end
+        let o = if rng.chance(1, 2) { "asc" } else { "desc" };
+        ops.push("rawhash".into());
+        ops.push(format!(
+            "exec u1 (exec c2_1 ((w - {:02x}) (msg (exec c1_0 (({} ~ ~ {}) (rd -)) -))) -)",
+            rng.range(1, 200),
+            rng.pick(&["rng", "rngk", "rngv"]),
+            o
+        ));
+        ops.push("trace".into());
+        ops.push("dump".into());
+    }
     let n = if thorough { rng.range(5, 12) } else { rng.range(3, 7) };
     for _ in 0..n {
         let c = rng.pick(&focus);
